@@ -26,7 +26,7 @@ THEOREMS = [
     # the branch resamplers and the smoother as TRANSLATED from transforms/branch.py on every run (Gen/AlgoResample.lean) equal the models
     "RefineResample.linResample_refines", "RefineResample.isoResample_refines", "RefineResample.convSmooth_refines",
     "RefineResample.interp_eq", "RefineResample.linspace0_eq", "RefineResample.arange0_eq", "RefineResample.cumsumK_cumdist", "RefineResample.convolveSame_ones",
-    "C16.generated_lin_eq_model", "C16.generated_iso_eq_model", "C16.generated_smooth_eq_model", "C16.generated_iso_step_le", "C16.generated_smooth_endpoints_count",
+    "C16.generated_lin_eq_model", "C16.generated_iso_eq_model", "C16.generated_smooth_eq_model", "C16.generated_iso_step_le", "C16.generated_smooth_endpoints_count", "C16.generated_lin_last",
     "C16.pairArgmin_spec", "C16.pair_step_inv", "C16.pair_exact", "C16.pair_step_loc", "C16.pair_same_place",
 ]
 TRUSTED = ["hand-written rational models Model/Resample.lean of np.interp / linspace / arange, the two branch resamplers, the moving-average smoother and the "
